@@ -708,8 +708,11 @@ pub struct Meta {
     pub depth: u8,
     /// signature predicted by the documented mapping rules ("" = unit: no bytes at all)
     pub expected_signature: &'static str,
-    /// source text of the generated definition(s) this entry introduces ("" for library/std types)
+    /// source text of the generated definitions this entry consists of, dependencies first
+    /// ("" for library/std types)
     pub definition: &'static str,
+    /// the entry itself is a generated definition with derives (counted as a program)
+    pub derived: bool,
     /// structural tags (comma separated, sorted), e.g. `data_enum_in_array`: identity of findings
     pub tags: &'static str,
     /// value list was reduced (base-choice / component cap)
@@ -760,9 +763,10 @@ def emit(bank):
     out.append("pub const VALUE_CAP: usize = %d;\npub const COMPONENT_CAP: usize = %d;\n\n" % (CAP, COMPONENT_CAP))
     out.append("pub static METAS: [Meta; %d] = [\n" % len(bank))
     for i, t in enumerate(bank):
-        own_def = t.definition or ""
-        out.append("    Meta { index: %d, rust: %s, kind: %s, shape: %s, depth: %d, expected_signature: %s, definition: %s, tags: %s, capped: %s, oaa: %s },\n" % (
-            i, rstr(t.rust), rstr(t.kind), rstr(t.shape), t.depth, rstr(t.sig), rstr(own_def), rstr(",".join(sorted(t.tags))),
+        own_def = "".join(text for _, text, _ in t.defs)
+        out.append("    Meta { index: %d, rust: %s, kind: %s, shape: %s, depth: %d, expected_signature: %s, definition: %s, derived: %s, tags: %s, capped: %s, oaa: %s },\n" % (
+            i, rstr(t.rust), rstr(t.kind), rstr(t.shape), t.depth, rstr(t.sig), rstr(own_def),
+            "true" if t.definition else "false", rstr(",".join(sorted(t.tags))),
             "true" if t.capped else "false", "true" if t.oaa else "false"))
     out.append("];\n\n")
     out.append("/// Calls `v.visit::<T>(meta, values)` for every bank entry that exists in this build.\n")
